@@ -45,7 +45,7 @@ RULE = (
     "comments between tokens; 1-3 token-level mutations (delete, duplicate, swap, splice from another file, literal "
     "stretching to 20-44 digit numerals / odd-length hex / long and multi-byte strings, punctuation, trivia, "
     "truncation) of the corpus and of generated programs (30%); nesting of (), [], concat(), Ada(), ! to depth 1-64 "
-    "(10%); the unclosed family (an opener of every bracketing construct - comment, string, braces, parentheses, brackets, blocks - written 1, 2, 3, 4, 6, 8, 30 and 64 times and never closed, at the start of a text and after a valid program); strings around the backslash; the any-character alphabet holds quotes, escapes, comment and block delimiters and control characters. Non-trivial = every case; distinct = distinct source text"
+    "(10%); the unclosed family (an opener of every bracketing construct - comment, string, braces, parentheses, brackets, blocks - written 1, 2, 3, 4, 6, 8, 30 and 64 times and never closed, at the start of a text and after a valid program); literal pairs (two numerals from the edges of what the grammar admits in validity bounds, amounts and metadata, both orders); negated literals at every analysed position; strings around the backslash; the any-character alphabet holds quotes, escapes, comment and block delimiters and control characters. Non-trivial = every case; distinct = distinct source text"
 )
 ASSUMPTIONS = ["pest's engine itself is compared, not verified", "inputs are at most a few KB; nesting depth at most 64"]
 
